@@ -128,7 +128,10 @@ def strategy(tier):
     # client has disconnected, its callbacks are not invoked any more
     late = st.fixed_dictionaries({
         'part': st.just('ack_in_disc'), 'aio': st.booleans(),
-        'how': st.sampled_from(['cdisc', 'sdisc']),
+        # ('lose2': the transport, which carries a second namespace, is
+        # lost; the handler of the first namespace is still running when
+        # the ACK for the other one is dispatched)
+        'how': st.sampled_from(['cdisc', 'sdisc', 'lose2']),
         'binary': st.booleans(),
         'args': st.lists(st.sampled_from(['x', 1, None, True]), max_size=2)})
     return st.one_of(*([_main_strategy(big, op)] * 10 +
@@ -287,17 +290,28 @@ def _ack_in_disc(case):
                 for f in state['frames']:       # "another thread"
                     w.h.feed(w.t[t], f, settle=False)
         sio.on('disconnect', on_disc, namespace='/')
+        target, tns = c, '/'
+        if case['how'] == 'lose2':
+            if not aio:
+                return labels       # (needs a suspended handler)
+            sio.on('disconnect', lambda sid, reason: None, namespace='/x')
+            cx, _ = w.connect(t, '/x')
+            target, tns = w.clients[cx], '/x'
         w.recv_all()
-        w.do(sio.emit('ev', 1, to=c['sid'], namespace='/',
+        w.do(sio.emit('ev', 1, to=target['sid'], namespace=tns,
                       callback=lambda *a: fired.append(a)))
         pid = w.recv(t)[0]['id']
         args = list(case['args']) + ([b'bin'] if case['binary'] else [])
-        state['frames'] = wire.frames(wire.ACK, '/', pid, args)
+        state['frames'] = wire.frames(wire.ACK, tns, pid, args)
         if aio:
             P = w.h.eio_packet
             sock = w.h.eio.sockets[w.t[t]]
             if case['how'] == 'cdisc':
                 task = w.h.loop.spawn(sock.receive(P.Packet(P.MESSAGE, '1')))
+            elif case['how'] == 'lose2':
+                task = w.h.loop.spawn(sock.close(
+                    wait=False, abort=True,
+                    reason=w.h.reason.TRANSPORT_ERROR))
             else:
                 task = w.h.loop.spawn(sio.disconnect(c['sid'],
                                                      namespace='/'))
@@ -330,7 +344,8 @@ def _ack_in_disc(case):
                             % (case['how'], fired))
         # ... and not afterwards either
         for f in state['frames']:
-            w.send_raw(t, f)
+            if case['how'] != 'lose2':
+                w.send_raw(t, f)
         w.h.settle()
         if fired:
             raise Violation('callback-after-disconnect', repr(fired))
